@@ -160,6 +160,20 @@ int wrap_add_fault(int side, int fn, int k, int err)
   return 0;
 }
 
+// Fault at the k-th call of fn *from now on* (parent side): the plan does not depend on how
+// many such calls earlier API calls happened to make.
+int wrap_add_fault_rel(int fn, int k, int err)
+{
+  return wrap_add_fault(0, fn, cnt[0][fn] + k, err);
+}
+
+// A heap block the caller hands over to the library (the string sink's contract: the library
+// reallocates or frees it): from here on it is the library's, like one it allocated itself.
+void wrap_heap_adopt(void *p)
+{
+  if (p && w_ledger) heap_add(p);
+}
+
 uint32_t wrap_trace_mark(void) { return W->ntr; }
 
 int wrap_child_state(int pid)
@@ -508,10 +522,13 @@ int __wrap_pipe2(int fds[2], int flags)
     errno = e;
     return -1;
   }
+  delay();
   int r = pipe2(fds, flags);
   if (r == 0) {
+    struct stat pst;
     t->a[0] = fds[0];
     t->a[1] = fds[1];
+    if (fstat(fds[0], &pst) == 0) t->a[2] = (long) pst.st_ino;  // same record layout as pipe()
     if (w_side == 0) {
       fd_add(fds[0]);
       fd_add(fds[1]);
